@@ -51,9 +51,24 @@ def _eig_tensor(spec):
 
 def _build(case, order="low", rot_first=True, inverse="quick"):
     from kawin.precipitation.parameters.ElasticFactors import StrainEnergy
-    se = StrainEnergy("ellipsoid")
-    se.description.setLebedevIntegration(order)
-    se.description.setOhmInverseFunction(inverse)
+    # how the ellipsoidal (Eshelby) description is selected: constructor argument, setShape by name (also the plate/needle aliases),
+    # the typed setter, a description object, each possibly after another shape had been selected and after the material data
+    sapi = case.get("shape_api") or ["ctor", "early"]
+
+    def select(se_):
+        from kawin.precipitation.parameters.ElasticFactors import EllipsoidalEnergyDescription
+        {"name": lambda: se_.setShape("ellipsoid"), "alias_plate": lambda: se_.setShape("plate"), "alias_needle": lambda: se_.setShape("Needle"),
+         "typed": se_.setEllipsoidal, "object": lambda: se_.setShape(EllipsoidalEnergyDescription())}[sapi[0]]()
+        se_.description.setLebedevIntegration(order)
+        se_.description.setOhmInverseFunction(inverse)
+    if sapi[0] == "ctor":
+        se = StrainEnergy("ellipsoid")
+        se.description.setLebedevIntegration(order)
+        se.description.setOhmInverseFunction(inverse)
+    else:
+        se = StrainEnergy(*([sapi[2]] if len(sapi) > 2 and sapi[2] else []))
+        if sapi[1] == "early":
+            select(se)
     rot = _rot(case["rot"]) if case.get("rot") else None
     if rot is not None and rot_first:
         se.setRotationMatrix(rot)
@@ -73,6 +88,8 @@ def _build(case, order="low", rot_first=True, inverse="quick"):
     if rot is not None and not rot_first:
         se.setRotationMatrix(rot)
     se.setEigenstrain(_eig(case["eig"]))
+    if sapi[0] != "ctor" and sapi[1] != "early":
+        select(se)
     return se
 
 
@@ -137,6 +154,11 @@ def check_quadratic(case):
     Ea = float(_build(dict(case, api="named" if case.get("api", "tensor") == "tensor" else "tensor")).compute(r))
     if not math.isclose(Ea, E, rel_tol=1e-9, abs_tol=1e-12 * scale):
         out.fail("entry_point_matters", "stiffness entered as tensor vs through setElasticConstants/setModuli (and precipitate versions): %r vs %r" % (E, Ea))
+    if case.get("shape_api"):
+        Eb = float(_build(dict(case, shape_api=None)).compute(r))
+        out.label("shape_via_" + case["shape_api"][0] + "_" + case["shape_api"][1])
+        if not math.isclose(Eb, E, rel_tol=1e-9, abs_tol=1e-12 * scale):
+            out.fail("entry_point_matters", "Eshelby description selected by %r: energy %r, through the constructor argument: %r" % (case["shape_api"], E, Eb), what="shape")
     if case.get("rotP") and case.get("cP"):
         out.label("precipitate_rotated")
     if case.get("rot"):
@@ -409,6 +431,9 @@ def _quad_case(draw):
         case["rotP"] = [draw(st.floats(-1, 1)) for _ in range(3)] + [draw(st.floats(0.1, 1))]      # the precipitate's own rotation
     if draw(st.booleans()):
         case["api"] = "named"
+    if draw(st.integers(0, 2)) == 2:
+        case["shape_api"] = [draw(st.sampled_from(["name", "alias_plate", "alias_needle", "typed", "object"])), draw(st.sampled_from(["early", "late"])),
+                             draw(st.sampled_from([None, None, "sphere", "cube", "constant"]))]
     return case
 
 
@@ -491,7 +516,7 @@ PREDICATES = {"lebedev_nodes_inexact": pred_lebedev, "negative_with_lebedev_node
 def clauses():
     return [
         Clause("quadratic", _quad_case, check_quadratic, quick=1200, thorough=60000,
-               rule="generator: matrix stiffness (isotropic/cubic, Zener ratio 0.3-4) x precipitate stiffness (same/isotropic/cubic) x eigenstrain (scalar/vector/symmetric tensor, |eps| <= 0.05) x semi-axes (sphere/needle/plate/general, aspect <= 20) x optional rotation of the matrix and of the precipitate x stiffness entered as tensor or through the named constants/moduli; "
+               rule="generator: matrix stiffness (isotropic/cubic, Zener ratio 0.3-4) x precipitate stiffness (same/isotropic/cubic) x eigenstrain (scalar/vector/symmetric tensor, |eps| <= 0.05) x semi-axes (sphere/needle/plate/general, aspect <= 20) x optional rotation of the matrix and of the precipitate x stiffness entered as tensor or through the named constants/moduli x Eshelby description selected by the constructor argument, by name/alias, typed setter or description object, before or after the material data, optionally after another shape; "
                     "oracle: E >= 0, E(s r) = s^3 E(r), E(c eps) = c^2 E(eps), quick vs numpy 3x3 inverse, 4th-rank vs 6x6 variants, inhomogeneous = homogeneous result for equal stiffness, rotation/stiffness setter order, entry point of the stiffness; non-trivial: non-spherical, cubic or rotated"),
         Clause("sphere", _sphere_case, check_sphere, quick=300, thorough=15000,
                rule="generator: isotropic (E, nu), dilatational eigenstrain, radius, 1-3 quadrature orders; closed form 2G(1+nu)/(1-nu) eps^2 V through the Eshelby path and the spherical approximation (1e-9), textbook Eshelby tensor components and trace"),
